@@ -18,7 +18,7 @@ Fixpoint U_entries_loop_f (p : path) (fuel : nat) (cnt : N) (bs : bytes) (acc : 
   match fuel with
   | O => Err EFuel
   | S f =>
-      if cnt =? 0 then Ok (rev acc, bs)
+      if cnt =? 0 then Ok (rev_append acc [], bs)
       else '(e, r) <- U_entry_f p f bs ;; U_entries_loop_f p f (cnt - 1) r (e :: acc)
   end.
 
@@ -39,7 +39,7 @@ Fixpoint unmarshal_packed_loop_f (fuel : nat) (bs : bytes) (acc : list entry) {s
   | O => Err EFuel
   | S f =>
       match bs with
-      | [] => Ok (rev acc)
+      | [] => Ok (rev_append acc [])
       | _ => '(e, r) <- U_entry_f Slice f bs ;; unmarshal_packed_loop_f f r (e :: acc)
       end
   end.
